@@ -298,7 +298,7 @@ func genScenario(t *rapid.T) (scenario, slog.Attrs) {
 	sc.Disturb = vlib.GenDisturb().Draw(t, "disturbance")
 	sc.Layout = rapid.SampledFrom([]string{"", "", "", time.Kitchen, time.Stamp, "15:04", "15:04:05.000"}).Draw(t, "ownTimeLayout")
 	sc.Msg = vlib.GenMsg().Draw(t, "msg")
-	if sc.Sev == slog.AlwaysLevel && strings.Trim(sc.Msg, " \t\r\n") == "" {
+	if sc.Sev == slog.AlwaysLevel && vlib.LooksBlank(sc.Msg) {
 		sc.Msg += "x" // a blank Print is delivered as a bare newline (property C02), not as a record
 	}
 	strs := vlib.GenAnyString()
@@ -343,7 +343,7 @@ func FuzzJSON(f *testing.F) {
 			args = append(args, slog.NewAttr(a.Key, a.Val.V))
 		}
 		args = append(args, slog.Group(key+"4", slog.NewAttr(key, attrs[4].Group[0].Val.V)))
-		if strings.Trim(msg, " \t\r\n") == "" {
+		if vlib.LooksBlank(msg) {
 			msg += "x"
 		}
 		run(t, "FuzzJSON", scenario{Named: true, Sev: slog.InfoLevel, Msg: msg, Attrs: attrs, Args: args}, nil)
